@@ -86,9 +86,11 @@ fn sketch_json(num: u32, ksize: u32, seed: u64, max_hash: u64, m: &str, track: b
 }
 
 /// a sketch that is NOT made by `new` + insertions: the public builders (`b`: content handed over,
-/// the tree's `current_max` left at its default; `bc`: the tree's `current_max` given too) or
-/// `Deserialize` of a JSON document (`js`, hashes in the order given)
-fn build_reg(tree: bool, ctor: &str, max_hash: u64, num: u32, ksize: u32, m: &str, seed: u64, track: bool, items: &[(u64, u64)]) -> Option<Reg> {
+/// the tree's `current_max` left to the builder's default, which derives it from `mins`; `bc`: the
+/// tree's `current_max` given explicitly - `cm`, or the largest hash when `cm` is `None`; an explicit
+/// value is taken as it is, so it may be stale) or `Deserialize` of a JSON document (`js`, hashes in
+/// the order given)
+fn build_reg(tree: bool, ctor: &str, max_hash: u64, num: u32, ksize: u32, m: &str, seed: u64, track: bool, items: &[(u64, u64)], cm: Option<u64>) -> Option<Reg> {
     Some(match (ctor, tree) {
         ("js", false) => Reg::V(serde_json::from_str(&sketch_json(num, ksize, seed, max_hash, m, track, items)).unwrap()),
         ("js", true) => Reg::T(serde_json::from_str(&sketch_json(num, ksize, seed, max_hash, m, track, items)).unwrap()),
@@ -123,7 +125,7 @@ fn build_reg(tree: bool, ctor: &str, max_hash: u64, num: u32, ksize: u32, m: &st
                 .max_hash(max_hash)
                 .mins(items.iter().map(|p| p.0).collect::<BTreeSet<u64>>())
                 .abunds(if track { Some(items.iter().cloned().collect::<BTreeMap<u64, u64>>()) } else { None })
-                .current_max(items.iter().map(|p| p.0).max().unwrap_or(0))
+                .current_max(cm.unwrap_or_else(|| items.iter().map(|p| p.0).max().unwrap_or(0)))
                 .build(),
         ),
         _ => return None,
@@ -590,7 +592,7 @@ fn step(st: &mut St, ws: &[&str]) -> String {
         }
         // build R ctor max_hash num ksize mol seed track items : a sketch handed over ready-made to a
         // public constructor (`b` builder, `bc` builder incl. the tree's current_max, `js` JSON document)
-        "build" => match build_reg(st.tree, ws[2], n(3), n(4) as u32, n(5) as u32, ws[6], n(7), ws[8] == "1", &parse_pairs(ws[9])) {
+        "build" => match build_reg(st.tree, ws[2], n(3), n(4) as u32, n(5) as u32, ws[6], n(7), ws[8] == "1", &parse_pairs(ws[9]), ws.get(10).map(|w| w.parse().unwrap())) {
             Some(r) => {
                 let s = obs(&r);
                 st.regs.insert(n(1), r);
@@ -901,12 +903,22 @@ fn make_operand(o: &mut Out, r: &mut Rng, capi: bool, tree: bool, reg: u64, p: &
     let hybrid = p.num != 0 && p.ceiling() != 0;
     if !hybrid && r.chance(1, 4) {
         let mut c = content(it, p.ceiling(), p.num);
-        // a num tree sketch whose current_max was left at 0 refuses smaller hashes later on
-        // (findings/C03.json, corpus/C03/builder-stale-max.ops): the builder is given the field there
-        let ctor = match r.below(4) {
+        // an explicitly given `current_max` is taken as it is; with a ceiling (no num bound) the code
+        // never reads it, so a stale one must not matter.  (A stale cache on a NUM tree sketch changes
+        // what later adds do - caller's responsibility; model column only, see kind 0 and
+        // corpus/C03/builder-stale-max.ops.)
+        let mut stale: Option<u64> = None;
+        let ctor = match r.below(5) {
             0 => "js",
             1 => "bc",
-            _ if tree && p.num != 0 => "bc",
+            2 if tree && p.num == 0 && !c.is_empty() => {
+                stale = Some(match r.below(3) {
+                    0 => 0,
+                    1 => c[r.below(c.len() as u64) as usize].0 / 2,
+                    _ => c[0].0,
+                });
+                "bc"
+            }
             _ => "b",
         };
         if ctor == "js" {
@@ -916,8 +928,12 @@ fn make_operand(o: &mut Out, r: &mut Rng, capi: bool, tree: bool, reg: u64, p: &
             }
         }
         o.op(&format!(
-            "build {} {} {} {} {} {} {} {} {}",
-            reg, ctor, p.ceiling(), p.num, p.ksize, p.mol, p.seed, p.track as u8, show_items(&c)
+            "build {} {} {} {} {} {} {} {} {}{}",
+            reg, ctor, p.ceiling(), p.num, p.ksize, p.mol, p.seed, p.track as u8, show_items(&c),
+            match stale {
+                Some(x) => format!(" {}", x),
+                None => String::new(),
+            }
         ));
     } else {
         emit(o, r, capi, &p.line(reg));
@@ -1132,10 +1148,40 @@ fn gen(a: &Args) {
         if kind == 0 {
             // ---- abundance 0 insertions: the two types differ (vector removes, tree ignores); model only
             o.case(&format!("{} nospec zero-abundance {}", ty, tag));
-            emit(&mut o, &mut r, capi, &pa.line(0));
             let ka = subset(&mut r, &u, 2, 3);
             let it = items(&mut r, &ka, 4);
-            emit(&mut o, &mut r, capi, &format!("add 0 {}", show_items(&it)));
+            if ty == "tree" && pa.num != 0 && pa.ceiling() == 0 && r.chance(1, 2) {
+                // a num tree sketch handed to the builder with an explicit, stale current_max (0, below
+                // or above the largest hash), sometimes cloned, then adds and removals: the model carries
+                // the cache (Sk.addTc / removeTc)
+                let c = content(&it, 0, pa.num);
+                let top = c.last().map(|p| p.0).unwrap_or(0);
+                let cm = match r.below(4) {
+                    0 => 0,
+                    1 => top / 2,
+                    2 => top.saturating_add(r.range(1, 50)),
+                    _ => c.first().map(|p| p.0).unwrap_or(0),
+                };
+                o.op(&format!(
+                    "build 0 bc 0 {} {} {} {} {} {} {}",
+                    pa.num, pa.ksize, pa.mol, pa.seed, pa.track as u8, show_items(&c), cm
+                ));
+                if r.chance(1, 3) {
+                    o.op("conv 0 0 clone");
+                }
+                let ks = subset(&mut r, &u, 1, 2);
+                o.op(&format!("addm 0 {}", show_nats(dup_shuffle(&mut r, &ks))));
+                let kr = subset(&mut r, &u, 1, 3);
+                o.op(&format!("rmmany 0 {}", show_nats(dup_shuffle(&mut r, &kr))));
+                let ke = subset(&mut r, &u, 1, 2);
+                let ie = items(&mut r, &ke, 3);
+                o.op(&format!("add 0 {}", show_items(&ie)));
+                o.op("copy 1 0");
+                o.op(&format!("addm 1 {}", show_nats(dup_shuffle(&mut r, &ka))));
+            } else {
+                emit(&mut o, &mut r, capi, &pa.line(0));
+                emit(&mut o, &mut r, capi, &format!("add 0 {}", show_items(&it)));
+            }
             for _ in 0..r.range(1, 4) {
                 let h = *r.pick(&u);
                 emit(&mut o, &mut r, capi, &format!("add 0 {}:0", h));
